@@ -8,7 +8,7 @@ from vlib import coq_bool, coq_list, coq_N, coq_str
 
 PROP = "C14"
 PROP_FILE = "Properties/C14.v"
-PER_SHARD = 300
+PER_SHARD = 220
 
 
 # ------------------------------------------------------------------ Coq case writer
@@ -215,7 +215,13 @@ def run(ctx):
                 ctx.known(kf, kf["what"])
             else:
                 new_fail.append((c, f))
-    for c, f in new_fail[:5]:
+    seen_sig, distinct_fail = set(), []
+    for c, f in new_fail:
+        k = json.dumps(f["signature"], sort_keys=True)
+        if k not in seen_sig:
+            seen_sig.add(k)
+            distinct_fail.append((c, f))
+    for c, f in distinct_fail[:5]:
         ctx.violation({"kind": "oracle", "signature": f["signature"], "replay": f["replay"],
                        "found_in_case": {"id": c["id"], "kind": c["kind"], "ixns": [ixn_brief(x) for x in c["input"]["ixns"]]},
                        "replay_cmd": "build/bin/rbac -replay <this file>"})
@@ -249,7 +255,7 @@ def run(ctx):
         "oracle_evaluations": evals,
         "oracle_disagreements": disagreements,
         "oracle_failing_classes_known": dict(known_hits),
-        "oracle_failing_classes_unknown": len(new_fail),
+        "oracle_failing_classes_unknown": len(seen_sig),
         "harness_self_check_failures": len(problems),
         "case_kinds": dict(kinds),
         "intention_list_sizes": {str(k): v for k, v in sorted(sizes.items())},
@@ -258,6 +264,7 @@ def run(ctx):
                      "default_allow": c["input"]["default_allow"], "http": c["input"]["http"],
                      "policies": [p["key"] for p in (c["impl"] or {"policies": []})["policies"]]}
                     for c in coq_cases[:3] + coq_cases[-3:]],
-        "exhaustive": "all valid intention sets of size <= %d over the atom universe" % (3 if ctx.tier == "thorough" else 2),
+        "exhaustive": False,
+        "exhaustive_scope": "all valid intention sets of size <= %d over the atom universe go through the Go oracle; a strided subset of them is evaluated in Coq" % (3 if ctx.tier == "thorough" else 2),
     })
     return ctx.finish(cov, assumptions)
